@@ -152,6 +152,34 @@ pub fn run(tier: Tier) -> i32 {
                 n_err += 1;
             }
         }
+        // the key at the base name is itself named like a form (a lone `k_two`; `k_one` + `k_two` without `_other`;
+        // a lone `k_other`; a lone ordinal form) and is not merged: a plural whose base is exactly that key collides
+        // with it like with any other key - in either file order
+        for (base, plain_keys) in [("k_two", vec!["k_two"]), ("k_two", vec!["k_one", "k_two"]), ("k_one", vec!["k_one", "k_few"]), ("k_other", vec!["k_other"]), ("k_ordinal_few", vec!["k_ordinal_few"]), ("k_ordinal_other", vec!["k_ordinal_other"])] {
+            for ordinal in [false, true] {
+                for plural_first in [false, true] {
+                    for third in [false, true] {
+                        let plain: Vec<(String, Val)> = plain_keys.iter().map(|k| (k.to_string(), st(&format!("[plain {k}]")))).collect();
+                        let mut plural = vec![(form_key(base, ordinal, Form::One), form_val(base, Form::One)), (form_key(base, ordinal, Form::Other), form_val(base, Form::Other))];
+                        if third {
+                            plural.insert(1, (form_key(base, ordinal, Form::Few), form_val(base, Form::Few)));
+                        }
+                        let mut e = vec![("pad".to_string(), st("[pad]"))];
+                        if plural_first {
+                            e.extend(plural);
+                            e.extend(plain);
+                        } else {
+                            e.extend(plain);
+                            e.extend(plural);
+                        }
+                        let mut p = Project::new(Config::simple(l, &[l]));
+                        p.set_file(None, l, e);
+                        jobs.push(Job { p, counts: None, part: "plural-at-form-named-key", cases: 1, nontriv: 1 });
+                        n_err += 1;
+                    }
+                }
+            }
+        }
         // subsets without `_other`: keys stay as written
         for mask in 1u32..32 {
             for ordinal in [false, true] {
@@ -243,7 +271,7 @@ pub fn run(tier: Tier) -> i32 {
         rep.sample(json!({"part": jobs[j].part, "project_head": vmodel::report::truncate(&jobs[j].p.describe(), 300)}));
     }
     let mut cov = serde_json::Map::new();
-    cov.insert("rule".into(), json!(format!("locales {locales:?}; for every non-empty subset of {{zero,one,two,few,many}} + other, cardinal and ordinal (62 keys per locale): merged tree evaluated under counts 0..=200,10^3,10^6,10^6+1,10^9 against ICU4X category_for called by the harness; UnusedForm diagnostics compared as a multiset with categories(); parse-time selection through `$t(k,{{count:n}})` for every such n plus decimals 0.5,1.0,1.5,2.0,0.0,21.0 and a renamed count, each locale as default; error side: every (cardinal form, ordinal form) pair under one base, with and without a mergeable set; every subset with a plain key of the base name; every subset without _other (keys must stay as written); three base keys in one file each in one of 6 states (absent, lone _one, lone _other, _one+_two, _one+_other, ordinal _one+_other): 216 files; forms inside subkeys/namespaces and look-alike suffixes")));
+    cov.insert("rule".into(), json!(format!("locales {locales:?}; for every non-empty subset of {{zero,one,two,few,many}} + other, cardinal and ordinal (62 keys per locale): merged tree evaluated under counts 0..=200,10^3,10^6,10^6+1,10^9 against ICU4X category_for called by the harness; UnusedForm diagnostics compared as a multiset with categories(); parse-time selection through `$t(k,{{count:n}})` for every such n plus decimals 0.5,1.0,1.5,2.0,0.0,21.0 and a renamed count, each locale as default; error side: every (cardinal form, ordinal form) pair under one base, with and without a mergeable set; every subset with a plain key of the base name; a plural whose base is a key that is itself named like a form and stays unmerged (lone k_two, k_one+k_two, lone k_other, lone ordinal forms; cardinal / ordinal plural of 2 or 3 forms, either file order: 48 files per locale); every subset without _other (keys must stay as written); three base keys in one file each in one of 6 states (absent, lone _one, lone _other, _one+_two, _one+_other, ordinal _one+_other): 216 files; forms inside subkeys/namespaces and look-alike suffixes")));
     cov.insert("exhaustive".into(), json!(true));
     cov.insert("outcome_classes".into(), json!(*outcomes.lock().unwrap()));
     cov.insert("key_locale_comparisons".into(), json!(*keys_total.lock().unwrap()));
